@@ -10,6 +10,7 @@ from . import core
 
 sys.path.insert(0, os.path.join(core.VERIF, "gen"))
 import schema2rs  # noqa: E402
+import randschema  # noqa: E402
 
 GEN_RS = os.path.join(core.HARNESS, "vh-derive", "src", "gen_types.rs")
 
@@ -59,8 +60,20 @@ def prepare(ver, wd):
         keys.setdefault(schema2rs.canon(c["in"]["schema"]), c["in"]["schema"])
         if "wschema" in c["in"]:
             keys.setdefault(schema2rs.canon(c["in"]["wschema"]), c["in"]["wschema"])
+    # seeded random schemas from the wider grammar join the generated types (I->S, validated by TLC on recorded events)
+    nsch, nvals, npairs = (400, 12, 250) if ver.tier == "thorough" else (90, 8, 50)
+    rschemas, rt, compat = randschema.generate(ver.seed, nsch, nvals, npairs)
+    for s_ in rschemas:
+        keys.setdefault(schema2rs.canon(s_), s_)
     order = sorted(keys)
     ids = {k: i for i, k in enumerate(order)}
+    rcases = os.path.join(wd, "derive.random.ndjson")
+    with open(rcases, "w") as out:
+        for si, v in rt:
+            out.write(json.dumps({"name": "rt", "sid": ids[schema2rs.canon(rschemas[si])], "in": {"schema": rschemas[si], "val": v}}) + "\n")
+        for wi, ri, v in compat:
+            out.write(json.dumps({"name": "compat", "sid": ids[schema2rs.canon(rschemas[ri])], "wsid": ids[schema2rs.canon(rschemas[wi])],
+                                  "in": {"schema": rschemas[ri], "wschema": rschemas[wi], "val": v}}) + "\n")
     schemas = [keys[k] for k in order]
     cases = os.path.join(wd, "derive.cases.ndjson")
     with open(cases, "w") as out:
@@ -78,6 +91,7 @@ def prepare(ver, wd):
         core.log(f"[derive] generated {len(schemas)} types -> {GEN_RS}")
     binp = core.cargo_build("vh-derive")
     _cache[key] = (binp, cases, res, len(schemas), n)
+    _cache[("random",) + key] = (rcases, len(rschemas), len(rt) + len(compat))
     return _cache[key]
 
 
@@ -146,8 +160,41 @@ RULE = {
 
 
 def random_schemas(ver, wd, pid):
-    """I->S with seeded random schemas from a wider grammar: built when gen/randschema.py exists."""
-    ver.cov["stages"].append({"stage": "I->S random schemas", "note": "not built in this round"})
+    """I->S with seeded random schemas from a wider grammar: the generated types run every (schema, value) and (writer, reader,
+    value); TLC judges the recorded events against DocEnc / Project (spec/Trace_Derive.tla)."""
+    t0 = time.time()
+    binp = prepare(ver, wd)[0]
+    rcases, nsch, ncases = _cache[("random", ver.tier)]
+    ev = os.path.join(wd, "derive.events")
+    os.makedirs(ev, exist_ok=True)
+    shard = os.path.join(ev, "shard-0000.ndjson")
+    summ = core.run_harness(binp, ["record", rcases, shard])
+    # split into shards for parallel validation
+    lines = open(shard).read().splitlines()
+    os.remove(shard)
+    shards = []
+    for k in range(0, len(lines), 400):
+        p = os.path.join(ev, f"shard-{k // 400:04d}.ndjson")
+        open(p, "w").write("\n".join(lines[k:k + 400]) + "\n")
+        shards.append(p)
+    n, mism = core.validate_shards("Trace_Derive", "Trace_Derive.cfg", shards, wd)
+    if n != summ["events"]:
+        raise core.ToolError(f"random schemas: {summ['events']} events recorded but {n} validated")
+    want = {"C08": {"bytes"}, "C07": {"len"}, "C09": {"dec:same"}, "C10": {"dec:rcompat"}}[pid]
+    kept = 0
+    for m in mism:
+        if m.get("name") == "panic":
+            raise core.ToolError("random schemas: the derive harness panicked outside the code under test")
+        if m["why"] in want:
+            kept += 1
+            flat = {"fam": "derive", "name": m["name"], "why": m["why"], "schema": m["schema"], "in": {"schema": m["schema"], "val": m["val"], "wschema": m.get("wschema")},
+                    "exp": {}, "obs": {"bytes": m.get("bytes"), "len": m.get("len"), "dec": m.get("dec")}, "sid": m["sid"]}
+            ver.mismatch("I->S random schemas", flat, sigtext="random:" + derive_sig(flat))
+    ver.cov["traces_validated_against_impl"] += n
+    ver.cov["evaluations"] += n
+    ver.cov["samples"] += summ["samples"][:1]
+    ver.cov["stages"].append({"stage": "I->S random schemas (Trace_Derive)", "random_schemas": nsch, "events_validated": n, "mismatches_of_this_property": kept,
+                              "wall_s": round(time.time() - t0, 1)})
 
 
 def replay_one(doc):
